@@ -1,0 +1,7 @@
+//go:build !verif
+
+// Package verifhook provides no-op yield points unless built with the verif tag.
+package verifhook
+
+// Yield is a no-op in normal builds.
+func Yield(point string) {}
